@@ -1,6 +1,10 @@
 package util
 
-import "net"
+import (
+	"net"
+
+	"git.torproject.org/pluggable-transports/snowflake.git/v2/internal/verifapi"
+)
 
 func VerifSelf_IsLocal() uint64 {
 	var sum uint64
@@ -19,6 +23,91 @@ func VerifSelf_IsLocal() uint64 {
 			sum |= 4
 		}
 		sum %= 1000000007
+	}
+	return sum
+}
+
+// ---- the struct -> JSON object model (engine/jsonmodel.go) against the real encoding/json ----
+
+type verifSelfInner struct {
+	A string `json:"a"`
+	B int    `json:"b,omitempty"`
+}
+type verifSelfEmb struct {
+	E1 string
+	E2 bool `json:"e2,omitempty"`
+}
+type verifSelfDoc struct {
+	Plain    string
+	Renamed  string `json:"type"`
+	Omit     string `json:"sdp,omitempty"`
+	Dash     string `json:"-"`
+	DashName string `json:"-,"`
+	N        int    `json:"n"`
+	U8       uint8  `json:",omitempty"`
+	F        bool   `json:"f,omitempty"`
+	hidden   string
+	In       verifSelfInner  `json:"in"`
+	P        *verifSelfInner `json:"p,omitempty"`
+	Q        *verifSelfInner `json:"q"`
+	verifSelfEmb
+	Other string `yaml:"x"`
+}
+
+func verifSelfFold(sum uint64, m map[string]interface{}, keys []string) uint64 {
+	for _, k := range keys {
+		sum = sum*31 + 1
+		v, ok := m[k]
+		if !ok {
+			continue
+		}
+		switch x := v.(type) {
+		case nil:
+			sum += 2
+		case string:
+			sum += 3 + uint64(len(x))
+			for i := 0; i < len(x); i++ {
+				sum = sum*7 + uint64(x[i])
+			}
+		case float64:
+			sum += 5
+			for c := 0; c < 300; c++ {
+				if x == float64(c) {
+					sum += uint64(c)
+				}
+			}
+			if x < 0 {
+				sum += 1000
+			}
+		case bool:
+			sum += 7
+			if x {
+				sum++
+			}
+		case map[string]interface{}:
+			sum = verifSelfFold(sum+11, x, []string{"a", "b", "A", "B"})
+		default:
+			sum += 13
+		}
+		sum %= 1000000007
+	}
+	return sum
+}
+
+func VerifSelf_JSON() uint64 {
+	keys := []string{"Plain", "Renamed", "type", "Omit", "sdp", "Dash", "-", "DashName", "n", "N", "U8", "f", "F", "hidden", "in", "In",
+		"p", "P", "q", "Q", "E1", "e2", "E2", "verifSelfEmb", "Other", "x"}
+	docs := []verifSelfDoc{
+		{},
+		{Plain: "p", Renamed: "offer", Omit: "v=0", Dash: "d", DashName: "dn", N: 7, U8: 200, F: true, hidden: "h",
+			In: verifSelfInner{A: "x", B: 3}, P: &verifSelfInner{A: "", B: 0}, Q: &verifSelfInner{B: 255},
+			verifSelfEmb: verifSelfEmb{E1: "e", E2: true}, Other: "o"},
+		{Renamed: "", Omit: "", N: -4, In: verifSelfInner{B: 0}, Q: nil, verifSelfEmb: verifSelfEmb{E2: false}},
+	}
+	var sum uint64
+	for i := range docs {
+		sum = verifSelfFold(sum, verifapi.JSONMembers(docs[i], nil), keys)
+		sum = verifSelfFold(sum, verifapi.JSONMembers(&docs[i], nil), keys)
 	}
 	return sum
 }
